@@ -18,6 +18,7 @@ import (
 	"time"
 
 	baseerrors "github.com/grailbio/base/errors"
+	"github.com/grailbio/bigslice"
 	"github.com/grailbio/bigmachine"
 	"github.com/grailbio/bigmachine/testsystem"
 	"github.com/grailbio/bigslice/internal/vtr"
@@ -36,6 +37,7 @@ type c14Case struct {
 	Events    [][]interface{} `json:"events"`
 	ProbationMs int           `json:"probation_ms"`
 	BootKills   []int         `json:"bootkills"` // ordinals of Worker.FuncLocations calls whose machine dies while booting
+	E2E         []int         `json:"e2e"`       // mode e2e: a real session runs one task per entry, with that Procs pragma
 }
 
 func c14Place(c *c14Case) vtr.Rec {
@@ -81,6 +83,8 @@ type c14Live struct {
 	quiet   bool
 	pending int
 	mprocs  interface{} // procs per machine, from the last MgrStart
+	auto    bool        // requests come from a real session: number them as they are offered
+	nextRid int
 }
 
 func (l *c14Live) mach(m *sliceMachine) int {
@@ -137,6 +141,9 @@ func (l *c14Live) hook(ev string, args ...interface{}) {
 		if len(l.pendReq) > 0 {
 			rid = l.pendReq[0]
 			l.pendReq = l.pendReq[1:]
+		} else if l.auto {
+			l.nextRid++
+			rid = 1000 + l.nextRid
 		}
 		l.reqIdx[req] = rid
 		r["rid"], r["procs"], r["prio"], r["need"] = rid, req.procs, req.priority, args[1]
@@ -206,6 +213,56 @@ func (l *c14Live) settle() bool {
 		}
 	}
 	return false
+}
+
+// c14Func: one single-shard task per entry of procs, each with that Procs pragma, joined so that they all belong to
+// one run and are offered to the machine manager together.
+var c14Func = bigslice.Func(func(procs []int) bigslice.Slice {
+	var ss []bigslice.Slice
+	for i, p := range procs {
+		i := i
+		src := bigslice.Const(1, []int{i}, []int{1})
+		ss = append(ss, bigslice.Map(src, func(k, v int) (int, int) {
+			time.Sleep(30 * time.Millisecond) // keep the procs for a while so that tasks overlap
+			return k, v
+		}, bigslice.Procs(p)))
+	}
+	return bigslice.Cogroup(ss...)
+})
+
+// c14RunE2E records the machine manager's events while a real session runs tasks with Procs pragmas (the
+// executor's own Offer / Done calls, on every exit path of bigmachineExecutor.Run).
+func c14RunE2E(c *c14Case) (rec vtr.Rec) {
+	rec = vtr.Rec{"id": c.ID, "mode": "live", "machprocs": c.MachProcs, "maxp": c.MaxP, "maxload": c.MaxLoad}
+	l := &c14Live{machIdx: map[*sliceMachine]int{}, reqIdx: map[*scheduleRequest]int{}, changed: make(chan struct{}, 1), auto: true}
+	verifHook = l.hook
+	defer func() { verifHook = nil }()
+	system := testsystem.New()
+	system.Machineprocs = c.MachProcs
+	system.KeepalivePeriod = 100 * time.Millisecond
+	system.KeepaliveTimeout = 400 * time.Millisecond
+	system.KeepaliveRpcTimeout = 100 * time.Millisecond
+	sess := Start(Bigmachine(system), Parallelism(c.MaxP), MaxLoad(c.MaxLoad))
+	ctx, cancel := context.WithTimeout(context.Background(), 60*time.Second)
+	_, err := sess.Run(ctx, c14Func, c.E2E)
+	cancel()
+	es := ""
+	if err != nil {
+		es = err.Error()
+	}
+	l.settle()
+	done := make(chan struct{})
+	go func() { sess.Shutdown(); close(done) }()
+	select {
+	case <-done:
+	case <-time.After(10 * time.Second):
+	}
+	l.mu.Lock()
+	rec["events"] = append([]vtr.Rec{}, l.w...)
+	l.mu.Unlock()
+	rec["stalled"] = false
+	rec["runerr"] = es
+	return
 }
 
 var errC14Transport = errors.New("c14 transport error")
@@ -433,7 +490,11 @@ func TestVerifC14(t *testing.T) {
 		if c.Mode == "place" {
 			wp.Put(c14Place(c))
 		} else {
-			wl.Put(c14RunLive(c))
+			if c.Mode == "e2e" {
+				wl.Put(c14RunE2E(c))
+			} else {
+				wl.Put(c14RunLive(c))
+			}
 		}
 	}
 }
